@@ -1,4 +1,538 @@
-// C14: several contexts on several threads (to be filled in).
+// C14: several contexts, each on its own simulated thread.
+//
+// One program describes 1..3 context threads c0..c2 (a thread may also stay without a context). Phases, separated by barriers:
+//   setup    each thread registers its context and modules, subscriptions, timers, (race build: tasks), sends a few messages
+//   foreign  while every context is quiescent, threads issue module / pub-sub calls on handles that belong to ANOTHER thread's
+//            context: each must fail with a permission error and change nothing (confinement)
+//   loop     every context loops concurrently until its own event budget / deadline timer ends it
+//   teardown each thread deregisters its context
+// Oracles: (1) confinement: return code and before/after snapshot of the target context; (2) independence: the per-context
+// observable trace of the concurrent run equals the trace of the same context run alone (asan build; kernel choices per thread
+// come from a stream named after the thread, clock cost 0); (3) race build: happens-before race detector over library code with
+// pre-emption at memory accesses.
 #include "thr.h"
-Program gen_ctxs(const std::string &campaign, uint64_t seed, bool thorough) { (void)campaign; (void)seed; (void)thorough; return Program(); }
-RunResult run_ctxs(const Program &p, bool trace) { (void)p; (void)trace; return RunResult(); }
+#include <sstream>
+
+using sim::R;
+
+namespace {
+
+const char *TOPICS[] = {"alpha", "beta", "gamma/1", "gamma/2"};
+const char *SUBS[] = {"alpha", "beta", "gamma/.*", "gamma/2"};
+const int NTOP = 4;
+
+struct CtxW;
+struct ModRec {
+    CtxW *cw = nullptr;
+    int idx = 0;
+    m_mod_t *h = nullptr;
+    std::string name;
+    int events = 0;
+    bool deregistered = false;
+};
+struct CtxW {
+    int k = 0;
+    bool want_ctx = true;
+    bool has_ctx = false;
+    std::deque<ModRec> mods;
+    std::vector<std::string> obs;
+    std::vector<const Op *> setup, foreign, post;
+    int budget = 6;          // handler invocations after which the loop is asked to quit
+    int handled = 0;
+    bool quit_asked = false;
+    int tid = -1;
+    std::deque<long> payloads;   // values travel as pointers to these cells
+    int tasks_pending = 0;
+};
+
+struct World14 {
+    std::deque<CtxW> ctxs;
+    int nthreads = 0;
+    int arrived = 0, generation = 0;
+    std::vector<int> waiting;
+    std::vector<uint32_t> barrier_vc;
+    bool alone = false;
+    int only = -1;
+    int foreign_calls = 0, foreign_ok = 0;
+    bool race_mode = false;
+};
+World14 *G;
+
+void obs(CtxW &c, const char *fmt, ...) __attribute__((format(printf, 2, 3)));
+void obs(CtxW &c, const char *fmt, ...) {
+    char buf[256];
+    va_list ap;
+    va_start(ap, fmt);
+    vsnprintf(buf, sizeof buf, fmt, ap);
+    va_end(ap);
+    c.obs.push_back(buf);
+}
+
+void barrier() {
+    if (G->nthreads <= 1) return;
+    sim::hb_release(G->barrier_vc);
+    int gen = G->generation;
+    if (++G->arrived == G->nthreads) {
+        G->arrived = 0;
+        G->generation++;
+        std::vector<int> w = G->waiting;
+        G->waiting.clear();
+        for (int t : w) sim::unpark(t);
+    } else {
+        G->waiting.push_back(sim::self_id());
+        while (G->generation == gen) sim::park();
+    }
+    sim::hb_acquire(G->barrier_vc);
+}
+
+ModRec *rec_of(m_mod_t *self) {
+    for (auto &c : G->ctxs) for (auto &m : c.mods) if (m.h == self) return &m;
+    return nullptr;
+}
+
+bool cb_start(m_mod_t *self) {
+    ModRec *m = rec_of(self);
+    if (m) obs(*m->cw, "on_start %s", m->name.c_str());
+    return true;
+}
+void cb_stop(m_mod_t *self) {
+    ModRec *m = rec_of(self);
+    if (m) obs(*m->cw, "on_stop %s", m->name.c_str());
+}
+void cb_evt(m_mod_t *self, const m_queue_t *const evts) {
+    ModRec *m = rec_of(self);
+    if (!m) VIOL("C14", "C14:handler-for-unknown-module", "an event handler ran for a module handle no context thread registered");
+    CtxW &c = *m->cw;
+    oracle_eval("C14.handler-on-owner-thread");
+    if (sim::self_id() != c.tid)
+        VIOL("C14", "C14:handler-on-foreign-thread", "handler of module %s (context %d) ran on thread %d, its context lives on thread %d", m->name.c_str(), c.k, sim::self_id(), c.tid);
+    for (m_queue_itr_t *it = m_queue_itr_new(evts); it; m_queue_itr_next(&it)) {
+        const m_evt_t *e = (const m_evt_t *)m_queue_itr_get_data(it);
+        m->events++;
+        switch (e->type) {
+        case M_SRC_TYPE_PS: {
+            const m_evt_ps_t *p = e->ps_evt;
+            ModRec *s = p->sender ? rec_of((m_mod_t *)p->sender) : nullptr;
+            if (p->sender && (!s || s->cw != &c))
+                VIOL("C14", "C14:message-from-another-context", "module %s (context %d) received a message whose sender belongs to %s", m->name.c_str(), c.k, s ? "another context" : "no known context");
+            long val = -1;
+            if (p->data) {
+                bool ours = false;
+                for (auto &cell : c.payloads) if (&cell == p->data) ours = true;
+                if (!ours) VIOL("C14", "C14:payload-from-another-context", "module %s (context %d) received a payload no module of its context sent", m->name.c_str(), c.k);
+                val = *(const long *)p->data;
+            }
+            obs(c, "evt %s ps sys=%d topic=%s from=%s val=%ld", m->name.c_str(), (int)p->system, p->topic ? p->topic : "-", s ? s->name.c_str() : "-", val);
+            break;
+        }
+        case M_SRC_TYPE_TMR: {
+            obs(c, "evt %s tmr ns=%lu", m->name.c_str(), (unsigned long)e->tmr_evt->ns);
+            if (m->name != "deadline") {   // traffic from inside the loop: every tick is published
+                c.payloads.push_back(m->events);
+                int rc = m_mod_ps_publish(self, TOPICS[m->events % NTOP], &c.payloads.back(), (m_ps_flags)0);
+                obs(c, "pub-from-handler %s %s rc=%d", m->name.c_str(), TOPICS[m->events % NTOP], rc);
+            }
+            break;
+        }
+        case M_SRC_TYPE_TASK: obs(c, "evt %s task tid=%u ret=%d", m->name.c_str(), e->task_evt->tid, e->task_evt->retval); c.tasks_pending--; break;
+        default: obs(c, "evt %s type=%d", m->name.c_str(), (int)e->type); break;
+        }
+    }
+    c.handled++;
+    bool deadline = m->name == "deadline";
+    if ((c.handled >= c.budget || deadline) && !c.quit_asked && c.tasks_pending <= 0) {
+        int rc = m_ctx_quit(0);
+        if (rc == 0) c.quit_asked = true;
+    } else if (deadline && !c.quit_asked) {
+        // a task is still on its thread: ask again a little later (stopping now would be the known task-thread finding)
+        m_src_tmr_t t; t.clock_id = CLOCK_MONOTONIC; t.ns = 5000000ULL;
+        m_mod_src_register_tmr(self, &t, M_SRC_ONESHOT, nullptr);
+    }
+}
+const m_mod_hook_t HOOK = {cb_start, nullptr, cb_evt, cb_stop};
+
+int task_body(void *up) {
+    long dur = (long)(intptr_t)up;
+    if (dur > 0) sim::sleep_ns((uint64_t)dur);
+    return (int)(dur % 7);
+}
+
+ModRec *pick(CtxW &c, long i) {
+    if (c.mods.empty()) return nullptr;
+    size_t n = c.mods.size();
+    return &c.mods[(size_t)(((i % (long)n) + (long)n) % (long)n)];
+}
+
+void exec_own(CtxW &c, const Op &op) {
+    const std::string &n = op.name;
+    if (n == "reg") {
+        if (!c.has_ctx) return;
+        c.mods.emplace_back();
+        ModRec &m = c.mods.back();
+        m.cw = &c;
+        m.idx = (int)c.mods.size() - 1;
+        m.name = "mod" + std::to_string(op.arg(0) % 4);   // the same names are used in every context on purpose
+        for (auto &o : c.mods) if (&o != &m && o.name == m.name && !o.deregistered) { c.mods.pop_back(); return; }
+        int rc = m_mod_register(m.name.c_str(), &m.h, &HOOK, (m_mod_flags)0, nullptr);
+        obs(c, "reg %s rc=%d", m.name.c_str(), rc);
+        if (rc != 0) { oracle_eval("C14.own-call-succeeds"); VIOL("C14", "C14:own-register-refused", "context %d: registering module %s (a free name in this context) returned %d", c.k, m.name.c_str(), rc); }
+        return;
+    }
+    ModRec *m = pick(c, op.arg(0));
+    if (!m || !m->h || m->deregistered) return;
+    if (n == "sub") {
+        int rc = m_mod_ps_subscribe(m->h, SUBS[op.arg(1) % NTOP], (m_src_flags)0, nullptr);
+        obs(c, "sub %s %s rc=%d", m->name.c_str(), SUBS[op.arg(1) % NTOP], rc);
+    } else if (n == "tmr") {
+        m_src_tmr_t t; t.clock_id = CLOCK_MONOTONIC; t.ns = (uint64_t)std::max(1L, op.arg(1)) * 1000000ULL;
+        int rc = m_mod_src_register_tmr(m->h, &t, (m_src_flags)(op.arg(2) ? M_SRC_ONESHOT : 0), nullptr);
+        obs(c, "tmr %s %ldms rc=%d", m->name.c_str(), op.arg(1), rc);
+    } else if (n == "tell") {
+        ModRec *to = pick(c, op.arg(1));
+        if (!to || !to->h || to->deregistered) return;
+        c.payloads.push_back(op.arg(2));
+        int rc = m_mod_ps_tell(m->h, to->h, &c.payloads.back(), (m_ps_flags)0);
+        obs(c, "tell %s->%s %ld rc=%d", m->name.c_str(), to->name.c_str(), op.arg(2), rc);
+    } else if (n == "pub") {
+        c.payloads.push_back(op.arg(2));
+        int rc = m_mod_ps_publish(m->h, TOPICS[op.arg(1) % NTOP], &c.payloads.back(), (m_ps_flags)0);
+        obs(c, "pub %s %s %ld rc=%d", m->name.c_str(), TOPICS[op.arg(1) % NTOP], op.arg(2), rc);
+    } else if (n == "task") {
+        if (!G->race_mode) return;   // a task brings threads whose schedule is not a function of this context alone
+        m_src_task_t tk; tk.tid = (int)(op.arg(1) % 5); tk.fn = task_body;
+        int rc = m_mod_src_register_task(m->h, &tk, (m_src_flags)0, (void *)(intptr_t)std::max(0L, op.arg(2)));
+        if (rc == 0) c.tasks_pending++;
+        obs(c, "task %s rc=%d", m->name.c_str(), rc);
+    } else if (n == "start") {
+        int rc = m_mod_start(m->h);
+        obs(c, "start %s rc=%d", m->name.c_str(), rc);
+    } else if (n == "pause") {
+        int rc = m_mod_pause(m->h);
+        obs(c, "pause %s rc=%d", m->name.c_str(), rc);
+    } else if (n == "resume") {
+        int rc = m_mod_resume(m->h);
+        obs(c, "resume %s rc=%d", m->name.c_str(), rc);
+    }
+}
+
+// observable state of one context as seen from outside, for the "no effect" clause
+std::string snapshot_ctx(CtxW &c) {
+    std::ostringstream o;
+    for (auto &m : c.mods) {
+        if (!m.h) continue;
+        o << m.name << ":" << (int)m_mod_state(m.h) << ":" << m.events << ";";
+    }
+    bool pool_threads = false;   // task threads of some context are at work: allocator and descriptor traffic is theirs
+    for (auto &t : R->threads) if (t->name.rfind("lib", 0) == 0) pool_threads = true;
+    if (!pool_threads) o << "alloc=" << R->a.outstanding() << ";";
+    o << "fds=" << R->k.open_count(sim::OWN_LIB) << ";";
+    for (auto &f : R->k.all_files()) {
+        if (f->kind == sim::F_EPOLL) o << "ep" << f->regs.size() << ";";
+        if (f->pipe) o << "p" << f->pipe->buf.size() << ";";
+        if (f->kind == sim::F_EVENTFD && !pool_threads) o << "e" << f->counter << ";";
+    }
+    return o.str();
+}
+
+static void dummy_evt(m_mod_t *, const m_queue_t *const) {}
+
+// a call on a module of context `t` issued by thread `c`
+void exec_foreign(CtxW &c, const Op &op) {
+    if (G->alone) return;
+    size_t nt = G->ctxs.size();
+    if (nt < 2) return;
+    CtxW &t = G->ctxs[(size_t)((c.k + 1 + (op.arg(0) % (long)(nt - 1) + (long)(nt - 1)) % (long)(nt - 1)) % (long)nt)];
+    if (&t == &c) return;
+    ModRec *m = pick(t, op.arg(1));
+    if (!m || !m->h) return;
+    ModRec *mine = pick(c, op.arg(3));
+    int kind = (int)(((op.arg(2) % 34) + 34) % 34);
+    std::string before = snapshot_ctx(t);
+    uint64_t io_before = R->k.ios.size();
+    long rc = 0;
+    const char *what = "?";
+    static long cell = 7;
+    m_src_tmr_t tm; tm.clock_id = CLOCK_MONOTONIC; tm.ns = 3000000;
+    m_src_sgn_t sg; sg.signo = 10;
+    m_src_path_t pt; pt.path = "/tmp/x"; pt.events = 2;
+    m_src_pid_t pd; pd.pid = 100; pd.events = 0;
+    m_src_task_t tk; tk.tid = 1; tk.fn = task_body;
+    m_src_thresh_t th; th.inactive_ms = 10; th.activity_freq = 0;
+    m_mod_stats_t st;
+    bool getter_like = false;
+    switch (kind) {
+    case 0: what = "m_mod_start"; rc = m_mod_start(m->h); break;
+    case 1: what = "m_mod_pause"; rc = m_mod_pause(m->h); break;
+    case 2: what = "m_mod_resume"; rc = m_mod_resume(m->h); break;
+    case 3: what = "m_mod_stop"; rc = m_mod_stop(m->h); break;
+    case 4: { what = "m_mod_deregister"; m_mod_t *copy = m->h; rc = m_mod_deregister(&copy); if (!copy && rc != 0) VIOL("C14", "C14:foreign-deregister-cleared-handle", "refused m_mod_deregister cleared the caller's handle"); break; }
+    case 5: { what = "m_mod_bind"; ModRec *o = pick(t, op.arg(1) + 1); rc = m_mod_bind(m->h, o && o->h ? o->h : m->h); break; }
+    case 6: what = "m_mod_become"; rc = m_mod_become(m->h, dummy_evt); break;
+    case 7: what = "m_mod_unbecome"; rc = m_mod_unbecome(m->h); break;
+    case 8: { what = "m_mod_ps_tell"; ModRec *o = pick(t, op.arg(1) + 1); rc = m_mod_ps_tell(m->h, o && o->h ? o->h : m->h, &cell, (m_ps_flags)0); break; }
+    case 9: what = "m_mod_ps_publish"; rc = m_mod_ps_publish(m->h, TOPICS[0], &cell, (m_ps_flags)0); break;
+    case 10: { what = "m_mod_ps_poisonpill"; ModRec *o = pick(t, op.arg(1) + 1); rc = m_mod_ps_poisonpill(m->h, o && o->h ? o->h : m->h); break; }
+    case 11: what = "m_mod_ps_subscribe"; rc = m_mod_ps_subscribe(m->h, "zeta", (m_src_flags)0, nullptr); break;
+    case 12: what = "m_mod_ps_unsubscribe"; rc = m_mod_ps_unsubscribe(m->h, SUBS[0]); break;
+    case 13: what = "m_mod_unstash"; rc = m_mod_unstash(m->h, 1); break;
+    case 14: what = "m_mod_src_len"; rc = m_mod_src_len(m->h, M_SRC_TYPE_TMR); break;
+    case 15: what = "m_mod_src_register_fd"; rc = m_mod_src_register_fd(m->h, 3, (m_src_flags)0, nullptr); break;
+    case 16: what = "m_mod_src_deregister_fd"; rc = m_mod_src_deregister_fd(m->h, 3); break;
+    case 17: what = "m_mod_src_register_tmr"; rc = m_mod_src_register_tmr(m->h, &tm, (m_src_flags)0, nullptr); break;
+    case 18: what = "m_mod_src_deregister_tmr"; tm.ns = 2000000; rc = m_mod_src_deregister_tmr(m->h, &tm); break;
+    case 19: what = "m_mod_src_register_sgn"; rc = m_mod_src_register_sgn(m->h, &sg, (m_src_flags)0, nullptr); break;
+    case 20: what = "m_mod_src_register_path"; rc = m_mod_src_register_path(m->h, &pt, (m_src_flags)0, nullptr); break;
+    case 21: what = "m_mod_src_register_pid"; rc = m_mod_src_register_pid(m->h, &pd, (m_src_flags)0, nullptr); break;
+    case 22: what = "m_mod_src_register_task"; rc = m_mod_src_register_task(m->h, &tk, (m_src_flags)0, nullptr); break;
+    case 23: what = "m_mod_src_register_thresh"; rc = m_mod_src_register_thresh(m->h, &th, (m_src_flags)0, nullptr); break;
+    case 24: what = "m_mod_set_batch_size"; rc = m_mod_set_batch_size(m->h, 4); break;
+    case 25: what = "m_mod_set_batch_timeout"; rc = m_mod_set_batch_timeout(m->h, 1000000); break;
+    case 26: what = "m_mod_set_tokenbucket"; rc = m_mod_set_tokenbucket(m->h, 5, 5); break;
+    case 27: what = "m_mod_stats"; rc = m_mod_stats(m->h, &st); getter_like = true; break;
+    case 28: { what = "m_mod_lookup"; m_mod_t *f = m_mod_lookup(m->h, m->name.c_str()); rc = f ? 0 : -EPERM; if (f) m_mem_unref(f); getter_like = true; break; }
+    case 29: what = "m_mod_dump"; rc = m_mod_dump(m->h); getter_like = true; break;
+    case 30: what = "m_mod_log"; rc = m_mod_log(m->h, "x"); getter_like = true; break;
+    // addressing a module of another context from one's own module
+    case 31: if (!mine || !mine->h) return; what = "m_mod_ps_tell(own module -> module of another context)"; rc = m_mod_ps_tell(mine->h, m->h, &cell, (m_ps_flags)0); break;
+    case 32: if (!mine || !mine->h) return; what = "m_mod_ps_poisonpill(own module -> module of another context)"; rc = m_mod_ps_poisonpill(mine->h, m->h); break;
+    case 33: if (!mine || !mine->h) return; what = "m_mod_bind(own module, module of another context)"; rc = m_mod_bind(mine->h, m->h); break;
+    }
+    (void)getter_like;
+    G->foreign_calls++;
+    sim::tr("foreign", c.k, t.k, kind);
+    oracle_eval("C14.foreign-call-refused");
+    if (rc >= 0) {
+        char sig[160];
+        snprintf(sig, sizeof sig, "C14:foreign-call-accepted:%s", what);
+        VIOL("C14", sig, "%s on module %s of context %d, called from thread c%d (%s), returned %ld instead of failing", what, m->name.c_str(), t.k, c.k, c.has_ctx ? "which owns another context" : "which has no context", rc);
+    }
+    if (kind < 31 && rc != -EPERM) {
+        char sig[160];
+        snprintf(sig, sizeof sig, "C14:foreign-call-wrong-error:%s", what);
+        VIOL("C14", sig, "%s on a module of another thread's context returned %ld, not a permission error (-EPERM)", what, rc);
+    }
+    oracle_eval("C14.foreign-call-no-effect");
+    std::string after = snapshot_ctx(t);
+    bool pool_threads = false;
+    for (auto &th2 : R->threads) if (th2->name.rfind("lib", 0) == 0) pool_threads = true;
+    if (pool_threads) io_before = R->k.ios.size();
+    if (before != after || R->k.ios.size() != io_before) {
+        char sig[160];
+        snprintf(sig, sizeof sig, "C14:foreign-call-had-effect:%s", what);
+        VIOL("C14", sig, "refused %s from thread c%d changed context %d: [%s] -> [%s]%s", what, c.k, t.k, before.c_str(), after.c_str(), R->k.ios.size() != io_before ? " (descriptor I/O happened)" : "");
+    }
+    G->foreign_ok++;
+}
+
+void *ctx_thread(void *arg) {
+    CtxW &c = *(CtxW *)arg;
+    c.tid = sim::self_id();
+    sim::set_own_stream(c.k);
+    // ---- setup
+    if (c.want_ctx) {
+        std::string nm = "ctx" + std::to_string(c.k);
+        int rc = m_ctx_register(nm.c_str(), (m_ctx_flags)0, nullptr);
+        obs(c, "ctx_register rc=%d", rc);
+        oracle_eval("C14.own-call-succeeds");
+        if (rc != 0) VIOL("C14", "C14:own-context-refused", "thread c%d could not register its own context (%d) although it has none", c.k, rc);
+        c.has_ctx = true;
+        // the module that ends the loop for sure
+        c.mods.emplace_back();
+        ModRec &d = c.mods.back();
+        d.cw = &c; d.idx = 0; d.name = "deadline";
+        rc = m_mod_register("deadline", &d.h, &HOOK, (m_mod_flags)0, nullptr);
+        if (rc != 0) VIOL("C14", "C14:own-register-refused", "context %d: registering its first module returned %d", c.k, rc);
+    }
+    for (const Op *op : c.setup) exec_own(c, *op);
+    barrier();
+    // ---- foreign calls while every context is quiescent
+    for (const Op *op : c.foreign) exec_foreign(c, *op);
+    barrier();
+    // ---- loop
+    if (c.has_ctx) {
+        ModRec &d = c.mods[0];
+        m_src_tmr_t t; t.clock_id = CLOCK_MONOTONIC; t.ns = 40000000ULL;
+        m_mod_src_register_tmr(d.h, &t, M_SRC_ONESHOT, nullptr);
+        int rc = m_ctx_loop();
+        obs(c, "loop rc=%d", rc);
+        for (const Op *op : c.post) exec_own(c, *op);
+    }
+    barrier();
+    // ---- teardown
+    if (c.has_ctx) {
+        for (auto &m : c.mods) obs(c, "final %s state=%d events=%d", m.name.c_str(), m.h ? (int)m_mod_state(m.h) : -1, m.events);
+        int rc = m_ctx_deregister();
+        obs(c, "ctx_deregister rc=%d", rc);
+        for (auto &m : c.mods) if (m.h) { m_mem_unref(m.h); m.h = nullptr; }
+        c.has_ctx = false;
+    }
+    return nullptr;
+}
+
+struct Result14 {
+    std::vector<std::vector<std::string>> obs;
+    uint64_t fp = 0;
+    bool horizon = false;
+    int foreign_ok = 0;
+    int events = 0;
+    size_t nthreads = 0;
+};
+
+sim::Config cfg14(const Program &p, bool trace) {
+    sim::Config c;
+    c.seed = p.getu("seed", 1);
+    c.sched = (int)p.get("sched", sim::S_RANDOM);
+    c.switch_p = p.getd("switch_p", 0.3);
+    c.pct_depth = (int)p.get("pct_depth", 3);
+    c.subset_p = p.getd("subset_p", 0);
+    c.max_waits = 4000;
+    c.max_steps = 2000000;
+    c.cost_ns = 0;
+    c.trace = trace;
+    c.preempt_mem = sim::g_race_build;
+    c.preempt_mem_p = p.getd("preempt_mem_p", 0.02);
+    return c;
+}
+
+Result14 run_once(const Program &p, bool trace, int only) {
+    sim::g_race_property = "C14";
+    sim::run_begin(cfg14(p, trace));
+    install_violation_filter("C14");
+    m_set_memhook(sk_malloc, sk_calloc, sk_free);
+    World14 w;
+    G = &w;
+    w.race_mode = sim::g_race_build;
+    w.alone = only >= 0;
+    w.only = only;
+    int n = (int)std::min(3L, std::max(1L, p.get("contexts", 2)));
+    for (int k = 0; k < n; k++) {
+        w.ctxs.emplace_back();
+        CtxW &c = w.ctxs.back();
+        c.k = k;
+        c.want_ctx = p.get("noctx", -1) != k;
+        c.budget = (int)p.get("budget", 6);
+    }
+    for (auto &op : p.ops) {
+        if (op.where.size() < 2 || op.where[0] != 'c') continue;
+        int k = atoi(op.where.c_str() + 1) % n;
+        CtxW &c = w.ctxs[(size_t)k];
+        if (op.name == "foreign") c.foreign.push_back(&op);
+        else if (op.name.rfind("post_", 0) == 0) c.post.push_back(&op);
+        else c.setup.push_back(&op);
+    }
+    w.nthreads = only >= 0 ? 1 : n;
+    static World14 *s_w;
+    s_w = &w;
+    sim::run_main([]() {
+        std::vector<int> tids;
+        for (auto &c : s_w->ctxs) {
+            if (s_w->only >= 0 && c.k != s_w->only) continue;
+            tids.push_back(sim::thread_create(ctx_thread, &c, false, "ctx"));
+        }
+        for (int t : tids) sim::thread_join(t);
+    });
+    Result14 r;
+    for (auto &t : R->threads) if (t->st != sim::Thread::DONE) VIOL("C14", "C14:thread-never-finishes", "thread %s is blocked for ever at the end of the run", t->name.c_str());
+    oracle_eval("C14.nothing-left-behind");
+    if (R->a.outstanding() != 0) VIOL("C14", "C14:leak", "%zu allocation(s) outstanding after every context was deregistered", R->a.outstanding());
+    if (R->k.open_count(sim::OWN_LIB) != 0) VIOL("C14", "C14:descriptor-left-open", "%zu library descriptor(s) open after every context was deregistered", R->k.open_count(sim::OWN_LIB));
+    for (auto &c : w.ctxs) { r.obs.push_back(c.obs); r.events += c.handled; }
+    r.fp = R->fp;
+    r.horizon = R->horizon_hit || R->k.poll_failure_injected;
+    r.foreign_ok = w.foreign_ok;
+    r.nthreads = R->threads.size();
+    if (only < 0) {
+        if (w.foreign_ok) R->ctr.probe("foreign_calls_refused", (uint64_t)w.foreign_ok);
+        if (n >= 2) R->ctr.probe("runs_with_concurrent_loops");
+        if (sim::g_race_build) {
+            uint64_t acc, pre;
+            sim::race_stats(acc, pre);
+            R->ctr.probe("instrumented_accesses", acc);
+            if (pre) R->ctr.fault("preempt_at_memory_access", pre);
+        }
+        g_stats.absorb_run();
+    }
+    G = nullptr;
+    sim::run_end();
+    return r;
+}
+
+} // namespace
+
+RunResult run_ctxs(const Program &p, bool trace) {
+    Result14 together = run_once(p, trace, -1);
+    RunResult rr;
+    rr.fp = together.fp;
+    rr.nontrivial = together.events >= 2 && together.obs.size() >= 2;
+    rr.state_hash = sim::mix64((uint64_t)std::min(together.events, 12), (uint64_t)std::min(together.foreign_ok, 6) * 4 + together.obs.size());
+    if (sim::g_race_build || together.horizon) return rr;
+    // independence: each context alone must observe exactly what it observed next to the others
+    for (size_t k = 0; k < together.obs.size(); k++) {
+        if (p.get("noctx", -1) == (long)k) continue;
+        Result14 alone = run_once(p, false, (int)k);
+        if (alone.horizon) continue;
+        oracle_eval("C14.independence");
+        if (alone.obs[k] != together.obs[k]) {
+            size_t i = 0;
+            while (i < alone.obs[k].size() && i < together.obs[k].size() && alone.obs[k][i] == together.obs[k][i]) i++;
+            std::string a = i < alone.obs[k].size() ? alone.obs[k][i] : "(end)", b = i < together.obs[k].size() ? together.obs[k][i] : "(end)";
+            sim::run_begin(cfg14(p, false));
+            install_violation_filter("C14");
+            VIOL("C14", "C14:context-observes-other-contexts", "context %zu observes [%s] at step %zu next to the other contexts but [%s] when run alone", k, b.c_str(), i, a.c_str());
+        }
+    }
+    return rr;
+}
+
+Program gen_ctxs(const std::string &campaign, uint64_t seed, bool thorough) {
+    (void)campaign;
+    sim::Rng r = sim::fork_rng(seed, "gen-ctxs");
+    Program p;
+    p.set("property", "C14");
+    p.set("engine", "simthr");
+    p.set("campaign", "C14");
+    p.set("seed", (long)seed);
+    static const int scheds[] = {sim::S_RANDOM, sim::S_RANDOM, sim::S_PCT, sim::S_RR, sim::S_RTB};
+    p.set("sched", scheds[r.below(5)]);
+    p.setd("switch_p", r.chance(0.5) ? 0.3 : (r.chance(0.5) ? 0.05 : 0.7));
+    p.set("pct_depth", (long)r.range(1, 4));
+    p.setd("subset_p", r.chance(0.3) ? 0.3 : 0.0);
+    int n = (int)r.range(2, 3);
+    p.set("contexts", n);
+    p.set("noctx", r.chance(0.2) ? (long)r.below(n) : -1L);
+    p.set("budget", (long)r.range(2, thorough ? 14 : 8));
+    p.setd("preempt_mem_p", r.chance(0.5) ? 0.02 : 0.1);
+#ifdef SIM_BUILD_RACE
+    p.set("build", "race");
+#else
+    p.set("build", "asan");
+#endif
+    for (int k = 0; k < n; k++) {
+        std::string who = "c" + std::to_string(k);
+        int nm = (int)r.range(1, 3);
+        for (int i = 0; i < nm; i++) {
+            p.add(who, "reg", {(long)i});
+            if (r.chance(0.7)) p.add(who, "start", {(long)(i + 1)});
+        }
+        int nops = (int)r.range(2, thorough ? 14 : 8);
+        for (int i = 0; i < nops; i++) {
+            switch (r.below(8)) {
+            case 0: case 1: p.add(who, "sub", {(long)r.below(4), (long)r.below(4)}); break;
+            case 2: case 3: p.add(who, "tmr", {(long)r.below(4), (long)r.range(1, 12), r.chance(0.3) ? 1L : 0L}); break;
+            case 4: p.add(who, "tell", {(long)r.below(4), (long)r.below(4), (long)r.below(1000)}); break;
+            case 5: p.add(who, "pub", {(long)r.below(4), (long)r.below(4), (long)r.below(1000)}); break;
+            case 6: p.add(who, "task", {(long)r.below(4), (long)r.below(5), (long)r.range(0, 4000000)}); break;
+            case 7:
+#ifdef SIM_BUILD_RACE
+                p.add(who, "start", {(long)r.below(4)});   // (no pause next to task sources: avoid filter of the known task-thread finding)
+#else
+                p.add(who, r.chance(0.5) ? "start" : "pause", {(long)r.below(4)});
+#endif
+                break;
+            }
+        }
+        int nf = (int)r.range(0, 4);
+        for (int i = 0; i < nf; i++) p.add(who, "foreign", {(long)r.below(3), (long)r.below(4), (long)r.below(34), (long)r.below(4)});
+    }
+    return p;
+}
